@@ -23,7 +23,9 @@ func (s ExploreRecursiveEdge) Interests() []datamodel.PathSegment {
 
 // Explore should ultimately never get called for an ExploreRecursiveEdge selector
 func (s ExploreRecursiveEdge) Explore(n datamodel.Node, p datamodel.PathSegment) (Selector, error) {
-	panic("Traversed Explore Recursive Edge Node With No Parent")
+	// An edge that was not replaced by its recursion (e.g. a bare edge next to
+	// other members of a union at the top of the sequence) explores nothing.
+	return nil, nil
 }
 
 // Decide should almost never get called for an ExploreRecursiveEdge selector
